@@ -8,8 +8,11 @@ patch="$(readlink -f "$1")"; shift
 here="$(cd "$(dirname "$0")/.." && pwd)"
 tag="mutcheck-$$"
 wt="/tmp/$tag-repo"; vf="/tmp/$tag-verif"
+cleanup() { git -C /repo worktree remove --force "$wt" 2>/dev/null; rm -rf "$vf"; }
+trap cleanup EXIT
 git -C /repo worktree add -q --detach "$wt" HEAD
-git -C "$wt" apply "$patch"
+# later fix: commits may have moved the context of an older patch: fall back to a 3-way apply, then to fuzz
+git -C "$wt" apply "$patch" 2>/dev/null || git -C "$wt" apply -3 "$patch" 2>/dev/null || (cd "$wt" && patch -p1 --fuzz=3 -s < "$patch") || { echo "patch does not apply to the current HEAD"; exit 2; }
 mkdir -p "$vf"
 rsync -a --exclude .git --exclude build/run --exclude build/replay --exclude evidence --exclude design_probes --exclude seeded "$here/" "$vf/"
 mkdir -p "$vf/evidence" "$vf/build/run" "$vf/build/replay"
@@ -24,5 +27,3 @@ for f in glob.glob('build/replay/${p}_*.json'):
     r=json.load(open(f)); print('replay:', json.dumps(r)[:700])" 2>&1 | head -8 )
   set -e
 done
-git -C /repo worktree remove --force "$wt"
-rm -rf "$vf"
